@@ -8,15 +8,23 @@ REGISTRATION = {
     "category": "proof",
     "text": "Kernel-checked invariants (by induction over every action of an interleaving transition system with one action per "
             "lock-protected region / channel operation of sched.go): in every reachable state a shut-down runner has no user, "
-            "a step that shuts a runner down finds it unused, closeCount <= 1, a granted runner is open. The two guards the proof "
-            "needs are extracted from the working tree by go/ast on every run (Tie/C01.lean: decide); kernel-checked witness "
-            "traces show the statements fail for upstream's pinned variant (F12). The real Scheduler is run on seeded event "
+            "a step that shuts a runner down finds it unused, closeCount <= 1, a granted runner is open. Ghost-free form "
+            "(Properties/C01Bridge.lean): `gotRunner q = some r and not done q` implies q is a holder of r (bridge invariant), hence "
+            "a request in progress never holds a runner that is shut down or removed from `loaded`. The same theorems hold for the "
+            "bounded model (channel capacities, sends under mutexes, lock order: Model/SchedChan.lean, refinement reachB_reach). "
+            "Which variant of the model the tree implements is decided on every run by running the real scheduler on the F12a/F12b "
+            "witness schedules (behavioural probe) together with a go/ast extractor that evaluates what the guarding conditions imply "
+            "(Tie/C01.lean: decide); 'shut down at most once' rests on the extracted fact that unload() closes only where llama != nil "
+            "and then sets it to nil (close_is_guarded). Kernel-checked witness traces show the statements fail for upstream's "
+            "pinned variant (F12). The real Scheduler is run on seeded event "
             "scripts under fake time and every observed trace must be a trace of the model; property monitors run on the real code.",
     "design_ref": "DESIGN.md §5 C01/C02/C11",
-    "note": COMMON_NOTE + "Outside the model: preemption inside a locked region, lock-order inversion, channel capacities of "
-            "finishedReqCh/expiredCh/unloadedCh, real timers, unloadAllRunners at shutdown, the cuda VRAM-recovery poller.",
+    "note": COMMON_NOTE + "Outside the model: preemption inside a locked region, real timers, unloadAllRunners at shutdown (closes every "
+            "loaded runner regardless of users, by design), the cuda VRAM-recovery poller; pLookup is one action although Go reads "
+            "`loaded` and the victims' refCounts in separate critical sections (the extra Go behaviours are admitted by the conformance "
+            "oracle as retries). Channel capacities and lock order are in the bounded layer (safety theorems lifted by refinement).",
 }
-MODULES = ["OllamaVerif.Properties.C01", "OllamaVerif.Tie.C01"]
+MODULES = ["OllamaVerif.Properties.C01", "OllamaVerif.Properties.C01Bridge", "OllamaVerif.Properties.C02Chan", "OllamaVerif.Tie.C01"]
 THEOREMS = [
     "OllamaVerif.C01.closed_runner_has_no_user",
     "OllamaVerif.C01.close_step_only_when_unused",
@@ -33,6 +41,20 @@ THEOREMS = [
     "OllamaVerif.Tie.C01.expired_region_is_atomic",
     "OllamaVerif.Tie.C01.no_other_delete_site",
     "OllamaVerif.Tie.C01.tree_closed_runner_has_no_user",
+    "OllamaVerif.C01.reach_bridge",
+    "OllamaVerif.C01.in_progress_request_uses",
+    "OllamaVerif.C01.closed_runner_only_granted_to_finished",
+    "OllamaVerif.C01.used_runner_is_loaded",
+    "OllamaVerif.C01.in_progress_runner_is_loaded_and_open",
+    "OllamaVerif.C01.twice_expired_closes_once",
+    "OllamaVerif.Tie.C01.close_is_guarded",
+    "OllamaVerif.Tie.C01.tree_in_progress_runner_is_loaded_and_open",
+    "OllamaVerif.C02Chan.bounded_closed_runner_has_no_user",
+    "OllamaVerif.C02Chan.bounded_closed_at_most_once",
+    "OllamaVerif.C02Chan.reachB_reach",
+    "OllamaVerif.Tie.C01.tree_cfg_repo",
+    "OllamaVerif.Tie.C01.chan_caps_are_max_queue",
+    "OllamaVerif.Tie.C01.send_sites_match",
 ]
 
 
